@@ -38,7 +38,11 @@ pub use v2::OutputPort;
 #[cfg(not(feature = "output-port-v2"))]
 mod v1 {
     use std::fmt::Debug;
+    #[cfg(not(feature = "verif_hooks"))]
     use std::sync::RwLock;
+
+    #[cfg(feature = "verif_hooks")]
+    use crate::verif::sync::RwLock;
 
     #[cfg(feature = "verif_hooks")]
     use crate::verif::chan::pubsub;
